@@ -170,7 +170,7 @@ def run(ctx):
               "the group splitter is no longer called inside a try block of the constructor",
               desc="splitter called inside try")
     split_raises = sorted({exc_name(n.exc) for n in walk_no_nested(split.node) if isinstance(n, ast.Raise) and n.exc is not None})
-    ctx.floor("R2.2", "raises in the group splitter", len([n for n in walk_no_nested(split.node) if isinstance(n, ast.Raise)]), 2)
+    ctx.floor("R2.2", "raises in the group splitter", len([n for n in walk_no_nested(split.node) if isinstance(n, ast.Raise)]), 1)
     for t in tries:
         # the name bound in the try body
         bound = [tg.id for b in t.body for a in ast.walk(b) if isinstance(a, ast.Assign) for tg in a.targets if isinstance(tg, ast.Name)]
